@@ -19,14 +19,14 @@ PROPS = {
     "C01": {
         "title": "Integer arithmetic is exact at every magnitude",
         "v_units": ["arith"], "ob_filter": {"arith": C01_ARITH},
-        "k_groups": [],
+        "k_groups": ["fixnum_repr", "shl_kernel"],
         "replay": "arith",
         "level": "proof",
     },
     "C02": {
         "title": "Float and mixed-type evaluation follows IEEE-754 with ISO checks",
         "v_units": ["arith"], "ob_filter": {"arith": C02_ARITH},
-        "k_groups": [],
+        "k_groups": ["float_kernels"],
         "replay": "arith_float",
         "level": "proof",
     },
@@ -73,5 +73,41 @@ PROPS = {
         "k_groups": [],
         "replay": "charreader",
         "level": "proof",
+    },
+    "C03": {
+        "title": "Arithmetic does not depend on how the expression reaches is/2",
+        "v_units": [], "s_checks": ["arith_tables"], "k_groups": [],
+        "replay": "paths",
+        "level": "other",
+        "explanation": "structural table agreement: for every evaluable functor the compiled evaluator (get_*_instr -> Instruction -> *_instr) and the run-time evaluator (arith_eval_by_metacall) are read off the current text and must call the same kernel with the same operand order and result wrapping; with the kernels' contracts (C01/C02) same kernel => same number or same formal error. Not a semantic proof of the evaluators.",
+    },
+    "C05": {
+        "title": "Equal integers behave identically regardless of how they were produced",
+        "v_units": ["unifynum", "numcmp", "arith"],
+        "ob_filter": {"arith": [r"^(arena_from_i64|arena_from_isize|round|floor|ceiling|truncate)::"], "numcmp": [r"^(Number_cmp|Number_eq)::", r"^lemma::lemma_int_cmp_by_value$"]},
+        "s_checks": ["switch_routes"],
+        "k_groups": ["fixnum_repr"],
+        "replay": "index",
+        "level": "proof",
+    },
+    "C13": {
+        "title": "compare/3 implements the standard order of terms",
+        "v_units": ["numcmp"], "ob_filter": {"numcmp": [r"^(Number_cmp|Number_partial_cmp)::", r"^lemma::"]},
+        "k_groups": ["order_kernels"],
+        "replay": "arith_cmp",
+        "level": "proof",
+    },
+    "C21": {
+        "title": "Atom identity is text identity",
+        "v_units": [], "s_checks": ["atom_guards"], "k_groups": ["atom_inline"],
+        "replay": None,
+        "level": "proof",
+    },
+    "C55": {
+        "title": "writeq and print quote and space exactly as ISO requires",
+        "v_units": [], "k_groups": ["quoting"],
+        "replay": None,
+        "level": "other",
+        "explanation": "bounded: Kani/CBMC over atoms of at most 4 characters (every ASCII character per position in the quick tier, every Unicode scalar value in the thorough tier); the quoting decision is compared with a specification written from the property statement; longer atoms only repeat the per-character tail test",
     },
 }
